@@ -11,10 +11,11 @@ PER_FILE = 500
 CASE_TIMEOUT = 10
 RULE = ('three streams. bind: EVERY signature with 0-4 positional parameters x 0..n trailing defaults x *args x **kw (60 signatures) and EVERY call with '
         '0..n+2 positional arguments and every subset (size <= n+1) of {declared names, one undeclared name} passed by keyword: the 936 valid calls and all '
-        'invalid ones; compared: inspect.getcallargs, pyg_base.getcallargs and f called through call_with_callargs (f returns its own binding). stack: every '
+        'invalid ones, plus calls whose keywords are spelled like the *args / **kw parameters themselves (args, kw, kwargs, self) on every signature; compared: inspect.getcallargs, pyg_base.getcallargs and f called through call_with_callargs (f returns its own binding). stack: every '
         'stack of 1-3 decorators from {try_none, try_back, kwargs_support, cache, loop(list), pd2np}: single decorators on all 936 valid calls, longer stacks on '
         'sampled signatures/calls, with returning and raising f; compared: the chain of wrapper types, the chain after re-applying the outermost and the '
-        'innermost decorator, the result, getargspec. cache: call sequences (len 2-8) on a counting function with repeated, ==-equal (1, 1.0, True) and '
+        'innermost decorator, the result, getargspec. cache: call sequences (len 2-8) on a counting function whose n-th evaluation returns a value from a pool '
+        'with None, 0, "", [], False, NaN, (), {}, 0.0 (evaluations counted per distinct combination exactly) with repeated, ==-equal (1, 1.0, True) and '
         'unhashable list/dict arguments, lists vs tuples vs dict-item tuples of the same content, keywords in different orders; compared: every return and the '
         'list of evaluated calls. The oracle is written from the property text (inspect as reference binding, Python == on the arguments as passed for '
         '"distinct combination"). non-trivial = valid call passing >= 1 keyword or using a default (bind), stack of >= 2 or raising f (stack), sequence with a '
@@ -299,6 +300,15 @@ def all_calls(sig):
         for r in range(0, n + 2):
             for kwn in itertools.combinations(NAMES[:n] + [UNDECL], r):
                 yield {'args': list(range(1, kpos + 1)), 'kw': [[x, 10 + i] for i, x in enumerate(kwn)]}
+SPECIAL = [('args',), ('kw',), ('kwargs',), ('self',), ('args', 'kw'), ('kw', 'zz'), ('args', 'kwargs', 'self')]
+def special_calls(sig):
+    """keywords spelled like the *args / **kw parameters (and other reserved-looking names): they belong in the **kw dict"""
+    n = sig['npos']
+    for kpos in range(0, n + 2):
+        for declared in {(), tuple(NAMES[min(kpos, n):n]), tuple(NAMES[min(kpos, n):n][-1:])}:
+            for sp in SPECIAL:
+                names = list(declared) + list(sp)
+                yield {'args': list(range(1, kpos + 1)), 'kw': [[x, 10 + i] for i, x in enumerate(names)]}
 def is_valid(sig, call):
     n, nd = sig['npos'], sig['ndef']
     a, k = call['args'], [x for x, _ in call['kw']]
@@ -323,6 +333,15 @@ def gen_cases(rng, tier):
             if v: valid.append((sig, call))
             if v or not quick or rng.random() < 0.35:
                 cases.append(dict(kind='bind', **sig, **call))
+    special_valid = []
+    for sig in all_sigs():
+        for call in special_calls(sig):
+            v = is_valid(sig, call)
+            if v and not any(x == 'self' for x, _ in call['kw']): special_valid.append((sig, call))
+            if v or sig['vk'] or not quick or rng.random() < 0.3:
+                cases.append(dict(kind='bind', **sig, **call))
+    for sig, call in (rng.sample(special_valid, min(len(special_valid), 250)) if quick else special_valid):
+        cases.append(dict(kind='stack', decos=[rng.choice(DECOS)], raises=False, **sig, **call))
     # single decorators on every valid call; the raising variant on a sample
     for d in DECOS:
         for sig, call in valid:
